@@ -463,6 +463,11 @@ int main(int argc, char **argv) {
       }
       if (sink) fclose(sink);
       printf("RET dumped=%d errors=%d\n", nf, bad);
+    } else if (!strcmp(a[0], "fds")) {
+      /* number of open file descriptors of this process (descriptor leaks) */
+      DIR *d = opendir("/proc/self/fd"); struct dirent *e; int nfd = 0;
+      if (d) { while ((e = readdir(d)) != NULL) if (e->d_name[0] != '.') nfd++; closedir(d); nfd--; /* the DIR itself */ }
+      printf("RET %d\n", nfd);
     } else if (!strcmp(a[0], "layout")) {
       print_layout(); printf("RET 0\n");
     } else if (g_db == NULL) {
